@@ -771,8 +771,8 @@ func c08ScriptLane(t *testing.T, proto string, lane string) {
 				if hung {
 					break
 				}
-				if k == 0 {
-					continue // "start" is no place to stall: nothing of the request exists yet
+				if nm := dry.injNames[k]; nm == "start" || nm == "delivered" {
+					continue // no place to stall at: the next event is where the exchange would hang
 				}
 				to := 250 * time.Millisecond
 				o := c08Exec(sc, "deadline", k, true, to)
